@@ -33,7 +33,7 @@ def gen_cases(seed, tier):
     n = 12 if tier == "quick" else 600
     cases = [{"cls": "interp", "seed": seed * 1000 + i, "n": 6, "_w": 1} for i in range(n)]
     cases += [{"cls": "detect", "seed": seed * 1000 + i, "n": 2, "_w": 4} for i in range(n)]
-    cases += [{"cls": "detect-edge", "seed": seed * 1000 + i, "first": i == 0, "_w": 3} for i in range(max(3, n // 6))]
+    cases += [{"cls": "detect-edge", "seed": seed * 1000 + i, "first": i == 0, "end": ["bottom", "top"][i % 2], "_w": 3} for i in range(max(7, n // 4))]
     cases += [{"cls": "file", "seed": seed * 1000 + i, "_w": 8} for i in range(max(2, n // 6))]
     return cases
 
@@ -181,11 +181,18 @@ def run_case(case):
         reps = case.get("n", 1)
         for rep in range(reps):
             ntop = int(rng.choice([0, 0, 1, 3, 6, 12, 25, 40]))
+            top_end = cls == "detect-edge" and case.get("end") == "top" and not case.get("first", False)
+            if top_end:
+                ntop = 0                              # the silent channel sits 1..5 channels below the LAST channel of a probe that is fully inside
             x = background(rng, nc, ns, fs, ntop)
             if cls == "detect-edge":
                 first = case.get("first", False)      # the first edge case of every run puts the silent channel on channel 0
-                pos = [0 if first else int(rng.choice([0, 1, 2, 3])), int(nc - ntop - 9 - int(rng.integers(0, 3)))]
-                dead, noisy = place_faults(rng, nc, ntop, 1, 1, positions=pos if (first or rng.random() < 0.5) else pos[::-1])
+                if top_end:
+                    pos = [int(nc - 1 - int(rng.integers(1, 6))), int(rng.integers(40, 300))]
+                    dead, noisy = place_faults(rng, nc, ntop, 1, 1, positions=pos)
+                else:
+                    pos = [0 if first else int(rng.choice([1, 2, 3, 4, 5])), int(nc - ntop - 9 - int(rng.integers(0, 3)))]
+                    dead, noisy = place_faults(rng, nc, ntop, 1, 1, positions=pos if (first or rng.random() < 0.7) else pos[::-1])
             else:
                 dead, noisy = place_faults(rng, nc, ntop, int(rng.integers(1, 3)), int(rng.integers(1, 3)))
                 dead, noisy = dead[dead >= 6], noisy      # channels 0..5 are the 'edge' class
